@@ -26,3 +26,13 @@ def shrink(pcur, delta, lower, upper):
 
     else:
         return 1.0
+
+
+@jitted
+def raise_status(status):
+    """Raise the exception corresponding to a ray-tracing status."""
+    if status == 1:
+        raise ValueError("end point out of bound")
+
+    elif status == 2:
+        raise RuntimeError("maximum number of steps reached")
